@@ -73,6 +73,21 @@ func runSolver(ctx context.Context, sp solverSpec, file string, timeoutS int, se
 // splitConj: flatten a top-level (and ...) term into its conjuncts.
 func splitConj(t string) []string {
 	t = strings.TrimSpace(t)
+	if strings.HasPrefix(t, "(=> ") {
+		// (=> P (and A B)) is split into (=> P A), (=> P B)
+		parts := topLevelArgs(t[4 : len(t)-1])
+		if len(parts) == 2 {
+			cs := splitConj(parts[1])
+			if len(cs) > 1 {
+				out := make([]string, len(cs))
+				for i, c := range cs {
+					out[i] = "(=> " + parts[0] + " " + c + ")"
+				}
+				return out
+			}
+		}
+		return []string{t}
+	}
 	if !strings.HasPrefix(t, "(and ") {
 		return []string{t}
 	}
@@ -105,6 +120,34 @@ func splitConj(t string) []string {
 		out = append(out, splitConj(p)...)
 	}
 	return out
+}
+
+// topLevelArgs splits "a b (c d) |e f|" into its top-level s-expressions.
+func topLevelArgs(inner string) []string {
+	var parts []string
+	depth, start := 0, 0
+	inBar := false
+	for i := 0; i < len(inner); i++ {
+		c := inner[i]
+		switch {
+		case c == '|':
+			inBar = !inBar
+		case inBar:
+		case c == '(':
+			depth++
+		case c == ')':
+			depth--
+		case c == ' ' && depth == 0:
+			if i > start {
+				parts = append(parts, inner[start:i])
+			}
+			start = i + 1
+		}
+	}
+	if start < len(inner) {
+		parts = append(parts, inner[start:])
+	}
+	return parts
 }
 
 type attempt struct {
@@ -174,7 +217,13 @@ func stripQuant(s string) string {
 func solveOne(file string, timeoutS int, seed int, crossCheck bool) SolveResult {
 	z3n, cvc, z3o := solvers[0], solvers[1], solvers[2]
 	short := min(timeoutS, 3)
+	// most obligations are decided in a few milliseconds: one cheap attempt before racing
+	first := runSolver(context.Background(), z3n, file, 1, seed)
+	if (first.Status == "sat" || first.Status == "unsat") && !crossCheck {
+		return first
+	}
 	best, all := race(file, []attempt{{z3n, seed, short}, {z3o, seed, short}, {cvc, seed, short}, {z3n, seed + 1, short}})
+	all = append(all, first)
 	if best.Status == "undecided" {
 		var more []SolveResult
 		best, more = race(file, []attempt{{z3o, seed + 1, short}, {z3n, seed + 2, short}, {z3n, seed + 3, short}, {z3o, seed + 2, short}, {z3n, seed + 4, short}, {z3o, seed + 3, short}})
